@@ -945,6 +945,10 @@ func LoadNormalized(repoDir, tier string, overlay map[string][]byte) (*Program, 
 		notes = append(notes, ns...)
 		return true
 	}
+	// range statements over standard-library iterators go back to the loops they are defined as (normalize_iter.go)
+	if ov, ns := prog.iterRangeOverlay(cur); len(ov) > 0 {
+		apply(ov, ns, "iterator range normalisation")
+	}
 	// alternate: undo renames (types/fields/vars, then functions), then one round of helper inlining;
 	// inlining restores the callee sets of renamed functions whose bodies were split up, so rename
 	// tracking gets another chance after every round
